@@ -101,8 +101,8 @@ def scenarios(run):
     # P11 many subscribers, most of them removed one by one (first, middle, last positions), then everybody who stayed gets every event
     for ns, keep in ((20, 4), (40, 7)) if q else ((20, 4), (40, 7), (70, 9), (130, 20), (300, 30)):
         for order in ("front", "back", "mixed"):
-            st = [S("sub", c=c, buf=2) for c in range(1, ns + 1)]
-            ids = list(range(1, ns + 1))
+            ids = [c for c in range(1, ns + 2) if c != 99][:ns]      # (99 is the script's name for a channel that was never subscribed)
+            st = [S("sub", c=c, buf=2) for c in ids]
             victims = {"front": ids[: ns - keep], "back": ids[keep:][::-1], "mixed": run.rng.sample(ids, ns - keep)}[order]
             for j, v in enumerate(victims):
                 st.append(S("unsub", c=v))
